@@ -437,6 +437,23 @@ class CallMixin(object):
     fid = fresh_name('ex')
     st.frames[fid] = params
     scx = Ctx(None, None, [fid], None, ex.name)
+    # a pure extern defined by 'result == <expr>' is evaluated functionally (needed when the call
+    # sits under a binder, e.g. in a comprehension filter)
+    if not ex.modifies and not ex.may_raise and not ex.yields and not ex.requires and not ex.allocates \
+        and len(ex.ensures) == 1 and ex.returns is not None:
+      t = self.parse_spec(ex.ensures[0])
+      if isinstance(t, ast.Compare) and len(t.ops) == 1 and isinstance(t.ops[0], ast.Eq) \
+          and isinstance(t.left, ast.Name) and t.left.id == 'result':
+        self.spec_depth += 1
+        try:
+          v = self.ev1(t.comparators[0], st, scx)
+        finally:
+          self.spec_depth -= 1
+          st.frames.pop(fid, None)
+        if isinstance(v, V):
+          v = self.cast_to(st, v, ex.returns)
+        yield st, v
+        return
     for n, r in enumerate(ex.requires):
       g = self.spec_bool(st, scx, r)
       self.oblige(st, 'pre[%s#%d]@%s' % (ex.name, n, line), g, node, 'precondition %r of extern %s' % (r, ex.name))
